@@ -35,6 +35,8 @@ def braid_suite(ctx, vh):
     ladders += [{"rungs": 900, "side": 2, "side_mode": m} for m in (0, 1, 2)]
     # fan family: many convergence points at ONE max cut (overlapping spilled blocks)
     ladders += [{"fan": f} for f in (3, 130, 300, 600)]
+    # star family (C19/C04 beyond 10 heads): every replica lacking one sibling must sync
+    ladders += [{"star": w} for w in (2, 3, 10, 11, 12, 40, 130)]
     if ctx.thorough:
         ladders += [{"rungs": r, "side": s, "side_mode": m} for r in (769, 1025, 1500, 2500) for s in (2, 3, 40) for m in (0, 1, 2)]
         ladders += [{"fan": f} for f in (513, 1100)]
